@@ -64,6 +64,31 @@ fn run(sh: &mut Shard) {
             }
         }
     }
+    // nesting templates: every ordered pair (quick) / triple (thorough) of constructs around every leaf
+    for depth in 1..=(if tier == crate::shard::Tier::Quick { 3 } else { 4 }) {
+        crate::compose::for_each(depth, &mut |names, prog| {
+            if !sh.mine() {
+                return sh.running();
+            }
+            sh.begin(&|| printer::program(prog));
+            sh.count("slice:compose");
+            if let Some(r) = differential(sh, "semantics", prog, opts()) {
+                for t in verif::trace_take() {
+                    if (t.op as usize) < ophits.len() {
+                        ophits[t.op as usize] += 1;
+                    }
+                }
+                if !matches!(r.model.end, End::Unspec(_) | End::Diverge) {
+                    sh.nontrivial(&printer::program(prog));
+                    if matches!(r.model.end, End::Value(_)) {
+                        sh.count("compose-programs-yielding-a-value");
+                    }
+                    let _ = names;
+                }
+            }
+            sh.running()
+        });
+    }
     for sl in slices::slices() {
         let name = sl.name;
         slices::for_each_program(&sl, tier, sh, &mut |sh, prog| {
